@@ -27,7 +27,7 @@ RULE = (
     "from_job_sequences and from_dict(json(to_dict)) must reproduce the identical schedule; "
     "(sequences) every tuple of per-machine permutations of the right job multisets: accepted "
     "<=> the union of job chains and machine chains is acyclic (own DFS), accepted => complete, "
-    "feasible, sequences reproduced, rejected => ValidationError, under a 2 s alarm (hang = "
+    "feasible, sequences reproduced, rejected => ValidationError, under a 10 s CPU-time budget per call (hang = "
     "violation); (immutability) a content fingerprint of the instance is taken before and "
     "after dispatching with all observers, all rule solvers, CP-SAT, 5 graph builders, an "
     "environment episode and serialisation. Case = one instance (views/round trip), one "
@@ -330,7 +330,7 @@ def run_sequences(res, spec, cap=20000):
     if total > cap:
         res.add("caps_hit")
     n_acc = n_rej = 0
-    old = signal.signal(signal.SIGALRM, _alarm)
+    old = signal.signal(signal.SIGVTALRM, _alarm)
     try:
         for seqs in itertools.islice(itertools.product(*per_machine), cap):
             res.add("evaluations")
@@ -339,10 +339,10 @@ def run_sequences(res, spec, cap=20000):
                 res.add("nontrivial")
             want_ok = acyclic(ref, seqs)
             arg = [list(x) for x in seqs]
-            signal.setitimer(signal.ITIMER_REAL, 2.0)
+            signal.setitimer(signal.ITIMER_VIRTUAL, 10.0)
             try:
                 R = Schedule.from_job_sequences(inst, arg)
-                signal.setitimer(signal.ITIMER_REAL, 0)
+                signal.setitimer(signal.ITIMER_VIRTUAL, 0)
                 n_acc += 1
                 if not want_ok:
                     res.violation(check, "cyclic-sequences-accepted", spec=spec, sequences=seqs, result=impl.snap_schedule(R))
@@ -357,15 +357,15 @@ def run_sequences(res, spec, cap=20000):
             except _Hang:
                 res.violation(check, "hang", spec=spec, sequences=seqs)
             except Exception as exc:  # noqa: BLE001
-                signal.setitimer(signal.ITIMER_REAL, 0)
+                signal.setitimer(signal.ITIMER_VIRTUAL, 0)
                 n_rej += 1
                 if type(exc).__name__ != "ValidationError":
                     res.violation(check, f"rejected-with-{type(exc).__name__}", spec=spec, sequences=seqs, error=repr(exc)[:200])
                 elif want_ok:
                     res.violation(check, "acyclic-sequences-rejected", spec=spec, sequences=seqs)
     finally:
-        signal.setitimer(signal.ITIMER_REAL, 0)
-        signal.signal(signal.SIGALRM, old)
+        signal.setitimer(signal.ITIMER_VIRTUAL, 0)
+        signal.signal(signal.SIGVTALRM, old)
     res.add("states", n_acc)
     res.add("traces", n_acc + n_rej)
     res.aux_add("outcomes", ("acc", n_acc > 0, "rej", n_rej > 0))
